@@ -5,7 +5,7 @@ CONSTANTS Depth = 2
  Targs <- TargsAll
  Insts <- None
  CmpSet <- CmpAll
- Cmp3Set <- Cmp3Tiny
+ Cmp3Set <- CmpSmall
  Kinds <- KindsPair
  Record = TRUE
  EmitAll = TRUE
